@@ -252,6 +252,12 @@ impl<'a> ResponseCookie<'a> {
     pub fn set_secure(self, b: bool) -> (r: Self) ensures r == (ResponseCookie { secure: Some(b), ..self }) { ResponseCookie { secure: Some(b), ..self } }
     pub fn set_http_only(self, b: bool) -> (r: Self) ensures r == (ResponseCookie { http_only: Some(b), ..self }) { ResponseCookie { http_only: Some(b), ..self } }
     pub fn set_max_age(self, m: SignedDuration) -> (r: Self) ensures r == (ResponseCookie { max_age: Some(m), ..self }) { ResponseCookie { max_age: Some(m), ..self } }
+    /// accessors (API neighbourhood, not called by the unchanged code)
+    pub fn secure(&self) -> (r: Option<bool>) ensures r == self.secure { self.secure }
+    pub fn http_only(&self) -> (r: Option<bool>) ensures r == self.http_only { self.http_only }
+    #[verifier::external_body] pub fn max_age(&self) -> (r: Option<SignedDuration>) ensures r == self.max_age { unimplemented!() }
+    #[verifier::external_body] pub fn same_site(&self) -> (r: Option<SameSite>) ensures r == self.same_site { unimplemented!() }
+    pub fn value(&self) -> (r: &str) ensures r@ == self.value@ { self.value.as_str() }
 }
 pub struct RemovalCookie<'a> { pub name: String, pub domain: Option<String>, pub path: Option<String>, pub _p: PhantomData<&'a ()> }
 impl<'a> RemovalCookie<'a> {
